@@ -36,7 +36,10 @@ Inductive gcase :=
      the coordinate (plon, plat) *)
 | KBox (base : Z) (s : list Z) (out : res ((Q * Q) * (Q * Q))) (plon plat : Q) (o_in : bool)
   (* Coordinate(lon, lat).longitude/.latitude *)
-| KCoord (lon lat : Q) (out : Q * Q).
+| KCoord (lon lat : Q) (out : Q * Q)
+  (* an answer of a shape the harness could not encode (wrong type, Ok where an error was
+     expected, ...): always a mismatch; the replay carries the raw answer *)
+| KMalformed.
 
 Definition check (c : gcase) : bool :=
   match c with
@@ -50,4 +53,5 @@ Definition check (c : gcase) : bool :=
       | Err _ => true
       end
   | KCoord lon lat out => q2_eqb (coordinate lon lat) out
+  | KMalformed => false
   end.
